@@ -3217,4 +3217,51 @@ theorem tabletFromResponse_nothing (table : Option (String × String)) (sender :
 
 end KHistory
 
+/-! ### the failed-fetch theorem over reachable states -/
+
+section Reachable
+open ScyllaVerif.TabletsRefresh
+
+/-- every fetch result of the history is a map by keyspace name whose entries carry their own name -/
+def WfHistory (ops : List KOp) : Prop := ∀ o ∈ ops, ∀ p f, o = KOp.refresh p f → WfFetched f
+
+/-- the keyspaces a reachable state holds are a map by name -/
+theorem krun_kss_nodup (ops : List KOp) (hw : WfHistory ops) : ((krun ops).kss.map (·.name)).Nodup := by
+  unfold krun
+  suffices h : ∀ (ops : List KOp) (st : KState), WfHistory ops →
+      (st.kss.map (·.name)).Nodup → ((ops.foldl kstep st).kss.map (·.name)).Nodup from
+    h ops _ hw (by simp [KState.init])
+  intro ops
+  induction ops with
+  | nil => intro st _ h; exact h
+  | cons o rest ih =>
+    intro st hw h
+    apply ih _ (fun o' ho' => hw o' (List.mem_cons_of_mem _ ho'))
+    cases o with
+    | batch items => exact h
+    | refresh p f => exact resolve_nodup f (hw _ (List.mem_cons_self) p f rfl) st.kss
+    | topology p => exact h
+
+/-- **After every history** of batches, refreshes and topology-only refreshes: if the next refresh's fetch of keyspace
+`n` FAILS and the state holds a tablet-based older version `k` of it, then `k` stays the state's version and every
+table and view of `k` keeps its tablets, each passed through the per-tablet maintenance only.  No hypothesis on
+the state is left: `FlagsHonest` and the keyspace map's well-formedness come from reachability. -/
+theorem krun_failed_fetch_keeps_tablets (ops : List KOp) (hwh : WfHistory ops) (peers : List Peer)
+    (fetched : List (String × Option KsMeta)) (hw : WfFetched fetched)
+    (n : String) (hfail : (n, none) ∈ fetched) (k : KsMeta) (hk : k ∈ (krun ops).kss) (hn : k.name = n)
+    (htb : k.tabletBased = true) (name : String) (hname : (k.tables.contains name || k.views.contains name) = true) :
+    k ∈ (krun (ops ++ [.refresh peers fetched])).kss ∧
+    ∃ tbl', alGet (n, name) (krun (ops ++ [.refresh peers fetched])).cs.info.tables = some tbl' ∧
+      tbl'.tablets = ((alGet (n, name) (krun ops).cs.info.tables).getD Table.empty).tablets.filterMap
+        (maintTablet (removedNodes (krun ops).cs.known (newTopology (krun ops).cs.known (krun ops).cs.gen peers).1)
+          (nodesOf (newTopology (krun ops).cs.known (krun ops).cs.gen peers).1)
+          (recreatedNodes (krun ops).cs.known (newTopology (krun ops).cs.known (krun ops).cs.gen peers).1)) := by
+  have hstep : krun (ops ++ [.refresh peers fetched]) = kstep (krun ops) (.refresh peers fetched) := by
+    simp [krun, List.foldl_append]
+  rw [hstep]
+  exact refresh_failed_fetch_keeps_tablets (krun ops) (krun_ok ops).2 peers fetched hw (krun_kss_nodup ops hwh)
+    n hfail k hk hn htb name hname
+
+end Reachable
+
 end ScyllaVerif.Props.C15
